@@ -67,18 +67,20 @@ def body_hashes(m):
 
 
 def split_functions(text):
-    """{function name: text of its definition} in a generated C file."""
-    out, cur, name = {}, None, None
+    """{function name: [texts of its definitions]} in a generated C file (definition = signature line up to
+    the brace that closes it)."""
+    out, cur, name, depth = {}, None, None, 0
     for line in text.splitlines():
-        m = DEFRE.match(line)
-        if m and cur is None:
-            name, cur = m.group(1), [line]
+        if cur is None:
+            m = DEFRE.match(line)
+            if m:
+                name, cur, depth = m.group(1), [line], line.count("{") - line.count("}")
             continue
-        if cur is not None:
-            cur.append(line)
-            if line == "}":
-                out.setdefault(name, []).append("\n".join(l for l in cur if not l.startswith("#line")))
-                cur = None
+        cur.append(line)
+        depth += line.count("{") - line.count("}")
+        if depth == 0:
+            out.setdefault(name, []).append("\n".join(l for l in cur if not l.startswith("#line")))
+            cur = None
     return out
 
 
